@@ -193,6 +193,12 @@ class ConvNextWrapper(nn.Module):
             self.arch = arch_types["tiny"]
 
         self.up_blocks = len(self.arch["channels"]) - 1
+        # Do not up-sample past `output_stride`: the head layers are sized for the last
+        # decoder block, which must sit at the minimum output stride.
+        stride = stem_patch_stride
+        while self.up_blocks > 1 and stride < output_stride:
+            self.up_blocks -= 1
+            stride *= 2
         self.convs_per_block = convs_per_block
         self.stem_patch_kernel = stem_patch_kernel
         self.stem_patch_stride = stem_patch_stride
